@@ -920,6 +920,11 @@ func (v *Verifier) verifyFuncOnce(fn *ssa.Function, con *Contract) (unit *Unit) 
 		}
 		fr.vals[fv] = val
 		vars["&"+fv.Name()] = val
+		if freeVarWrittenOnce(fn, fv, 0) {
+			// the captured variable is assigned once, before the closure is
+			// created, and never again: its cell is stable across sync points
+			e.localRefs = append(e.localRefs, val.term)
+		}
 	}
 	// captured variables by name (content of their cells at entry)
 	pre := &SpecEnv{e: e, pkg: fn.Pkg.Pkg, vars: vars, cur: st, where: "requires of " + funcDisplayName(fn)}
@@ -958,6 +963,9 @@ func (v *Verifier) verifyFuncOnce(fn *ssa.Function, con *Contract) (unit *Unit) 
 			env.cur = entry
 			targets, _, _ := e.modTargets(&env, con)
 			for _, t := range targets {
+				if t.idx == "" && t.freshOnly {
+					continue // only cells allocated by this function: pre-existing cells are framed
+				}
 				if t.idx == "" {
 					e.frameWhole[t.key] = true
 				} else {
@@ -1083,6 +1091,9 @@ func (e *Enc) frameCheck(pre *SpecEnv, entry, out *State, con *Contract, fn *ssa
 	allowed := map[string][]string{}
 	whole := map[string]bool{}
 	for _, t := range targets {
+		if t.idx == "" && t.freshOnly {
+			continue
+		}
 		if t.idx == "" {
 			whole[t.key] = true
 		} else {
@@ -1257,4 +1268,101 @@ func (e *Enc) exitLemmas(env *SpecEnv, st *State, con *Contract) {
 		t, _ := e.lemmaInstance(env, l)
 		st.assume(t)
 	}
+}
+
+// freeVarWrittenOnce: the variable captured as fv by closure fn is initialised
+// by a single store in the function that declares it and is only read
+// afterwards, by that function and by every closure capturing it.
+func freeVarWrittenOnce(fn *ssa.Function, fv *ssa.FreeVar, depth int) bool {
+	p := fn.Parent()
+	if p == nil || depth > 3 {
+		return false
+	}
+	idx := -1
+	for i, f := range fn.FreeVars {
+		if f == fv {
+			idx = i
+		}
+	}
+	if idx < 0 {
+		return false
+	}
+	found := false
+	for _, b := range p.Blocks {
+		for _, ins := range b.Instrs {
+			mc, ok := ins.(*ssa.MakeClosure)
+			if !ok || mc.Fn != ssa.Value(fn) || idx >= len(mc.Bindings) {
+				continue
+			}
+			found = true
+			switch bv := mc.Bindings[idx].(type) {
+			case *ssa.Alloc:
+				if !allocWrittenOnce(bv) {
+					return false
+				}
+			case *ssa.FreeVar:
+				if !freeVarWrittenOnce(p, bv, depth+1) {
+					return false
+				}
+			default:
+				return false
+			}
+		}
+	}
+	return found
+}
+
+func allocWrittenOnce(a *ssa.Alloc) bool {
+	refs := a.Referrers()
+	if refs == nil {
+		return false
+	}
+	stores := 0
+	for _, r := range *refs {
+		switch x := r.(type) {
+		case *ssa.Store:
+			if x.Addr != ssa.Value(a) {
+				return false
+			}
+			stores++
+			// the initialising store must precede everything else: same block as the alloc
+			if x.Block() != a.Block() {
+				return false
+			}
+		case *ssa.UnOp:
+			if x.Op != token.MUL {
+				return false
+			}
+		case *ssa.DebugRef:
+		case *ssa.MakeClosure:
+			fn := x.Fn.(*ssa.Function)
+			for i, b := range x.Bindings {
+				if b == ssa.Value(a) && !freeVarReadOnly(fn.FreeVars[i], 0) {
+					return false
+				}
+			}
+		default:
+			return false
+		}
+	}
+	if stores > 1 {
+		return false
+	}
+	// the store precedes every capture that happens in the same block
+	seenClosure := false
+	for _, ins := range a.Block().Instrs {
+		switch x := ins.(type) {
+		case *ssa.MakeClosure:
+			for _, b := range x.Bindings {
+				if b == ssa.Value(a) {
+					seenClosure = true
+				}
+			}
+		case *ssa.Store:
+			if x.Addr == ssa.Value(a) && seenClosure {
+				return false
+			}
+		}
+	}
+	return true
 }
